@@ -106,7 +106,9 @@ fn eps(rng: &mut Rng) -> i64 {
 /// or (`old`) before the epoch, down to fractions of a second before it.
 fn ref_instant(rng: &mut Rng, base_now: i64, old: bool) -> i64 {
     if !old {
-        return base_now - rng.irange(1, 500) * DAY * NS + rng.irange(0, NS - 1);
+        // (a quarter of the time at a whole second, as `touch -d`, tar and FAT leave them)
+        let frac = if rng.chance(1, 4) { 0 } else { rng.irange(0, NS - 1) };
+        return base_now.div_euclid(NS) * NS - rng.irange(1, 500) * DAY * NS + frac;
     }
     match rng.weighted(&[3, 1, 1]) {
         0 => -(rng.irange(1, 15_000) * DAY * NS) + rng.irange(0, NS - 1),
